@@ -17,6 +17,13 @@ func extras(prop string) (map[string]any, []string) {
 			"membership is asserted only for the two cases the property names (honest live dealers in; dealers whose invalid/missing deal to an honest party stays unjustified out); everything else is checked through agreement",
 			"trusted: math/big Lagrange interpolation, the harness's Horner evaluation, testing/synctest quiescence",
 		}
+	case "C09":
+		return nil, []string{
+			"the reference for threshold recovery is bls.Sign(group secret, msg) of the same suite, which is the property's own definition of the unique signature",
+			"semantically different: a corrupted partial that still decodes to the same index and point is treated as the same partial",
+			"CoSi leader logic is a stub (kyber ships none)",
+			"sampling; finite Byzantine menu",
+		}
 	case "C10":
 		return nil, []string{
 			"sampling within n<=6, t in 2..n, <=3000 events per run; both VSS variants on Ed25519",
